@@ -9,7 +9,7 @@ import collections
 import importlib
 import re
 
-PROP_GROUPS = {'C11': ['join'], 'C02': ['join'], 'C10': ['matcher'], 'C14': ['handlers'], 'C17': ['rows']}
+PROP_GROUPS = {'C11': ['join'], 'C02': ['join'], 'C10': ['matcher'], 'C14': ['handlers', 'vloop'], 'C17': ['rows']}
 
 
 # ---------------------------------------------------------------- encoding
@@ -120,6 +120,12 @@ class Batch:
         if 'ok' in real:       # canonicalise now: the real functions update their states in place
             real = {'ok': post(real['ok']) if post else canon_py(real['ok'])}
         self.meta.append((fn, real, case if case is not None else op['args']))
+
+    def add_op(self, op, fn, real, post=None, case=None):
+        self.ops.append(op)
+        if 'ok' in real:
+            real = {'ok': post(real['ok']) if post else canon_py(real['ok'])}
+        self.meta.append((fn, real, case))
 
     def flush(self):
         rep = self.ctx.report
@@ -282,7 +288,75 @@ def run_rows(ctx, b, n):
     b.flush()
 
 
-RUNNERS = {'join': run_join, 'matcher': run_matcher, 'handlers': run_handlers, 'rows': run_rows}
+def run_vloop(ctx, b, n):
+    """the validator loop (`for i, row in enumerate(iterator): ...` of schema_validator): the real generator against the
+    translated loop, the outcomes of Field.cast_value and of the handler supplied as tables (a handler that updates the
+    row reports the new row through the write-back convention)"""
+    import copy
+    import tableschema
+    V = importlib.import_module('dataflows.base.schema_validator')
+    rng = ctx.rng('pycorr-vloop')
+    EXC = {'t': 'o', 'k': 'exception', 'v': 'CastError'}
+    for _ in range(n):
+        names = rng.sample(['a', 'b', 'c'], rng.randint(1, 3))
+        types = {nm: rng.choice(['integer', 'string', 'boolean']) for nm in names}
+        desc = {'name': 'res', 'schema': {'fields': [{'name': nm, 'type': types[nm]} for nm in names]}}
+        checked = rng.sample(names, rng.randint(1, len(names))) if rng.random() < 0.3 else None
+        rows = [{nm: rng.choice([1, 0, 'x', '7', None, 'true', True]) for nm in names if rng.random() < 0.9}
+                for _ in range(rng.randint(0, 5))]
+        policy = rng.choice(['ignore', 'drop', 'clear', 'raise', 'custom-odd', 'custom-field'])
+        log = []
+
+        def custom_odd(res_name, row, i, e):
+            return i % 2 == 1
+
+        def custom_field(res_name, row, i, e, field):
+            return field.name != 'a'
+        base = {'ignore': V.ignore, 'drop': V.drop, 'clear': V.clear, 'raise': V.raise_exception, 'custom-odd': custom_odd,
+                'custom-field': custom_field}[policy]
+        five = policy in ('clear', 'custom-field')
+
+        def recording(res_name, row, i, e, field):
+            before = copy.deepcopy(row)
+            try:
+                ret = base(res_name, row, i, e, field) if five else base(res_name, row, i, e)
+            except Exception:  # noqa
+                log.append((res_name, before, i, field.name, None, None))
+                raise
+            log.append((res_name, before, i, field.name, ret, copy.deepcopy(row)))
+            return ret
+        real = real_call(lambda: list(V.schema_validator(copy.deepcopy(desc), iter(copy.deepcopy(rows)), field_names=checked,
+                                                          on_error=recording)))
+        ext = []
+        seen = set()
+        for nm in names:
+            f = tableschema.Field({'name': nm, 'type': types[nm]})
+            # every value the column can hold while the loop runs: the raw ones (absent = None) — a cast result is never cast again
+            for v in [r.get(nm) for r in rows] + [None]:
+                key = (nm, repr(v))
+                if key in seen:
+                    continue
+                seen.add(key)
+                try:
+                    out = to_pv(f.cast_value(v))
+                except tableschema.exceptions.CastError:
+                    out = {'raise': 'CastError'}
+                ext.append(['.cast_value', [to_pv({'name': nm}), to_pv(v)], out])
+        for res_name, before, i, fname, ret, after in log:
+            args = [to_pv(res_name), to_pv(before), to_pv(i), EXC, to_pv({'name': fname})]
+            if ret is None and after is None:
+                ext.append(['on_error', args, {'raise': 'ValidationError'}])
+            else:
+                ups = [to_pv(res_name), to_pv(after), to_pv(i), EXC, to_pv({'name': fname})]
+                ext.append(['on_error', args, {'t': 'tuple', 'v': [to_pv('__wb__'), to_pv(ret), {'t': 'list', 'v': ups}]}])
+        fields = [{'name': nm} for nm in names if checked is None or nm in checked]
+        op = {'op': 'pyeval', 'fn': 'loop_schema_validator', 'mode': 'value', 'args': [], 'ext': ext,
+              'env': [['iterator', to_pv(rows)], ['schema_fields', to_pv(fields)], ['resource', to_pv({'name': 'res'})]]}
+        b.add_op(op, 'loop_schema_validator', real, case=[policy, types, checked, rows])
+    b.flush()
+
+
+RUNNERS = {'vloop': run_vloop, 'join': run_join, 'matcher': run_matcher, 'handlers': run_handlers, 'rows': run_rows}
 
 
 def run(ctx, groups=None, n=None):
